@@ -385,12 +385,13 @@ class PipelineFinalize(Contract):
     id = "C08.ProcessingPipeline.finalize"
     target = f"{PPm}:ProcessingPipeline.finalize"
     props = ("C08", "C14")
-    cases = (0, 1, 2, 3)
+    cases = tuple((n, kind) for n in (0, 1, 2, 3) for kind in ("an object", "an empty list of queries", "two queries", "an empty text"))      # finalizers run once on the whole output, also when nothing was emitted
 
     def args(self, I, case):
-        fins = [SObj("Finalizer", {"apply": NativeFn("apply", (lambda i: lambda I2, a, k: SObj("Out", {"by": i, "of": a[0]}))(i))}) for i in range(case)]
-        out0 = SObj("Out", {"by": -1})
-        return {"self": SObj(I.E.index.lookup(f"{PPm}:ProcessingPipeline"), {"finalizers": fins}, lazy=True), "args": [out0], "out0": out0, "case": case}
+        n, kind = case
+        fins = [SObj("Finalizer", {"apply": NativeFn("apply", (lambda i: lambda I2, a, k: SObj("Out", {"by": i, "of": a[0]}))(i))}) for i in range(n)]
+        out0 = {"an object": SObj("Out", {"by": -1}), "an empty list of queries": [], "two queries": [SObj("Q", {}), SObj("Q", {})], "an empty text": ""}[kind]
+        return {"self": SObj(I.E.index.lookup(f"{PPm}:ProcessingPipeline"), {"finalizers": fins}, lazy=True), "args": [out0], "out0": out0, "case": n}
 
     def post(self, I, inp, r):
         x, n = r, inp["case"]
